@@ -70,6 +70,12 @@ def run_one(rng, counters, tier):
              "samples": ["sampleA", "sampleB"][: rng.choice([1, 1, 2])], "depth": rng.choice([4, 8, 12]), "read_len": rng.choice([(150, 500), (300, 1200)]),
              "error_rate": rng.choice([0.0, 0.01, 0.05]), "multiallelic": rng.choice([0.0, 0.2]), "collapse": rng.choice([0.0, 0.5]),
              "coverage_gaps": rng.choice([0, 0, 1, 2]), "paired": rng.choice([0.0, 0.5, 1.0])}
+        if rng.random() < 0.06:
+            # very deep coverage (hundreds of reads per haplotype) on a handful of variants, genotypes that disagree with the reads
+            p.update({"ploidy": rng.choice([2, 3]), "n_chrom": 1, "chrom_len": 500, "n_var": rng.randint(3, 5), "depth": rng.choice([150, 300]), "read_len": (300, 450),
+                      "error_rate": 0.0, "gt_noise": 0.5, "coverage_gaps": 0, "paired": 0.0, "samples": ["sampleA"], "multiallelic": 0.0, "dead_chrom": None,
+                      "adjacent_cut": False, "gt_missing": 0.0, "min_gap": 40})
+            P = p["ploidy"]
         sim = genome.simulate_poly(rng, tmp, p)
         hostile = rng.random() < 0.3
         if hostile:
@@ -116,6 +122,8 @@ def run_one(rng, counters, tier):
             tb = traceback.format_exc()
             return [{"mech": "crash:" + tb.strip().splitlines()[-1].split(":")[0], "msg": "run_polyphase raised: " + tb[-1500:]}], False, desc
         counters["runs_ok"] = counters.get("runs_ok", 0) + 1
+        if p["depth"] >= 150:
+            counters["runs_with_very_deep_coverage"] = counters.get("runs_with_very_deep_coverage", 0) + 1
         counters["genotype_noise_sites"] = counters.get("genotype_noise_sites", 0) + getattr(sim, "gt_noise_sites", 0)
         if p["n_chrom"] > 1 and p["dead_chrom"]:
             counters["runs_with_unphasable_chromosome"] = counters.get("runs_with_unphasable_chromosome", 0) + 1
